@@ -492,7 +492,7 @@ impl Scenario for C01 {
     const ID: &'static str = "C01";
     const LEVEL: &'static str = "fault_enumeration";
     fn runs(tier: Tier) -> u64 {
-        tier.pick(320, 16_000)
+        tier.pick(3_200, 120_000)
     }
     fn profiles() -> &'static [Profile] {
         &[Profile::Dev, Profile::Release]
@@ -534,7 +534,7 @@ impl Scenario for C02 {
     const ID: &'static str = "C02";
     const LEVEL: &'static str = "exploration";
     fn runs(tier: Tier) -> u64 {
-        tier.pick(320, 16_000)
+        tier.pick(3_200, 120_000)
     }
     fn profiles() -> &'static [Profile] {
         &[Profile::Dev, Profile::Release]
